@@ -154,6 +154,12 @@ def ranges : Nat → List (Material × Nat) → List (Material × Nat × Nat)
 /-- the bytes of one read: a slice of the stream. -/
 def slice (stream : Wire.Bytes) (off len : Nat) : Wire.Bytes := (stream.drop off).take len
 
+/-- the key shares of the spec `Fingerprinter` / `ClientHelloSpec.FromRaw` makes of a captured hello
+(`KeyShareExtension.Write`): a GREASE entry becomes the GREASE placeholder and keeps its data, every
+other entry keeps its group and **drops the captured key** — it is generated anew per connection. -/
+def fingerprintShares (wire : List (Nat × Nat)) : List SpecShare :=
+  wire.map fun (g, n) => if Grease.isGrease g then { group := 0x0a0a, dataLen := n } else { group := g, dataLen := 0 }
+
 /-! ## `io.ReadFull` over a reader that serves the stream in arbitrary chunks -/
 
 /-- `io.ReadFull(reader, buf[:n])` where the reader hands out the chunks `cs` one per `Read` (a chunk may
